@@ -15,6 +15,8 @@ import (
 	"strings"
 	"sync"
 	"testing"
+
+	"github.com/ipld/go-storethehash/internal/vrt/vsched"
 )
 
 type rv struct {
@@ -30,6 +32,7 @@ type replayFile struct {
 	Nondet   []rv           `json:"nondet"`
 	Params   map[string]int `json:"params"`
 	Known    []string       `json:"known"`
+	Schedule []vsched.Ev    `json:"schedule"`
 	Assert   struct {
 		Label string         `json:"label"`
 		Kind  string         `json:"kind"`
@@ -167,7 +170,11 @@ func Assert(cond bool, label string, diag ...any) {
 	mu.Lock()
 	failed = append(failed, line)
 	mu.Unlock()
+	// the symbolic path ends at its first failing assertion; so does the replay
+	panic(assertStop{})
 }
+
+type assertStop struct{}
 
 func Fail(label string, diag ...any) { Assert(false, label, diag...) }
 func Cover(label string)             {}
@@ -310,6 +317,9 @@ func RunReplay(t *testing.T, harnesses map[string]func()) {
 					fmt.Println("VERIF-REPLAY-DIVERGED", d.msg)
 					return
 				}
+				if _, ok := r.(assertStop); ok {
+					return
+				}
 				buf := make([]byte, 1<<14)
 				buf = buf[:runtime.Stack(buf, false)]
 				fmt.Printf("VERIF-PANIC %v\n%s\n", r, buf)
@@ -318,9 +328,11 @@ func RunReplay(t *testing.T, harnesses map[string]func()) {
 				mu.Unlock()
 			}
 		}()
+		vsched.Start(rf.Schedule)
+		defer vsched.Finished()
 		h()
 	}()
-	if diverged != "" {
+	if diverged != "" && len(failed) == 0 {
 		fmt.Println("VERIF-REPLAY-DIVERGED", diverged)
 		return
 	}
